@@ -224,3 +224,53 @@ def screen_case(f):
                     o['idem'] = False
             o['idemwarn'] = any(issubclass(x.category, AmpycloudWarning) and str(x.message).startswith('Column') for x in w2)
     return {'f': f, 'res': res, 'exc': exc, 'o': o}
+
+
+# ------------------------------------------------------------------------------------------------
+# C19: scalings
+# ------------------------------------------------------------------------------------------------
+def _rat(x):
+    from fractions import Fraction
+    if x is None or (isinstance(x, float) and math.isnan(x)):
+        return [0, 0]
+    fr = Fraction(float(x)).limit_denominator(100000)
+    if abs(float(fr) - float(x)) > 1e-9 * max(1.0, abs(float(x))):
+        raise ValueError(f'not a small rational: {x!r}')
+    return [fr.numerator, fr.denominator]
+
+
+def scale_case(c):
+    from ampycloud import scaler
+    fct = {'ss': 'shift-and-scale', 'mm': 'minmax-scale', 'st': 'step-scale'}[c['mode']]
+    xs = np.array([float('nan') if q[1] == 0 else q[0] / q[1] for q in c['xs']], dtype=float)
+
+    def kw():
+        if c['mode'] == 'ss':
+            k = {'scale': c['scale']}
+            if c['hasshift']:
+                k['shift'] = c['shift']
+            return k
+        if c['mode'] == 'mm':
+            return {'min_range': c['minrange']}
+        return {'steps': list(c['steps']), 'scales': list(c['scales'])}
+    rec = {'c': c, 'ok': True, 'exc': '', 'ys': [], 'zs': [], 'ysn': []}
+    try:
+        with warnings.catch_warnings():
+            warnings.simplefilter('ignore')
+            x0 = xs.copy()
+            ys = scaler.apply_scaling(xs, fct, **kw())
+            if not np.array_equal(xs, x0, equal_nan=True):
+                raise AssertionError('input array modified')
+            k2 = scaler.convert_kwargs(xs, fct, **kw())
+            zs = scaler.apply_scaling(np.asarray(ys, dtype=float), fct, mode='undo', **k2)
+            fin = ~np.isnan(xs)
+            yn = scaler.apply_scaling(xs[fin], fct, **kw())
+            ysn = np.full_like(xs, np.nan)
+            ysn[fin] = yn
+        rec['ys'] = [_rat(v) for v in np.asarray(ys, dtype=float)]
+        rec['zs'] = [_rat(v) for v in np.asarray(zs, dtype=float)]
+        rec['ysn'] = [_rat(v) for v in ysn]
+    except Exception as e:
+        rec['ok'] = False
+        rec['exc'] = type(e).__name__ + ': ' + str(e)[:80]
+    return rec
